@@ -25,7 +25,7 @@ def sh(cmd, cwd=None, env=None, timeout=3600):
 
 def run_demo(demo, tree):
     src = open(demo).read()
-    src = re.sub(r"/tmp/seed_C\d+", tree, src)
+    src = re.sub(r"/tmp/seed_C\d+(?:r\d+)?", tree, src)
     path = os.path.join(tree, "_demo_tmp.py")
     open(path, "w").write(src)
     rc, out = sh(f"{PY} _demo_tmp.py", cwd=tree, env=dict(os.environ, PYTHONPATH=tree), timeout=600)
